@@ -177,6 +177,23 @@ Theorem lossy_cache_key_refuted :
   exists ws, run_writes [] ws <> map fresh_store ws.
 Proof. exists lossy_pair. exact (proj1 (proj2 lossy_key_breaks)). Qed.
 
+(* ---- the pointer batch is an input -------------------------------------------------- *)
+(* [resolve] is a function of the segment and of the batch's metadata and returns NEW metadata
+   ([resolved_md]); the decidable spec therefore demands of the implementation that the pointer
+   batch's own metadata is unchanged after a resolve and that the same object, and any batch
+   sharing its metadata object, resolves again to the same answer (spec_ok, IPtr / IRt).  A
+   filter that compacts the caller's key/value slices in place violates it: the second
+   resolve of the same pointer returns the zero-row batch unchanged. *)
+Theorem inplace_metadata_compaction_refuted :
+  exists md name o l md',
+    is_ptr 0 md = true
+    /\ resolve true false 131072 name 0 md = Read o l md'
+    /\ resolve true false 131072 name 0 (inplace_after md name) = Unchanged.
+Proof.
+  destruct inplace_breaks as (H1 & H2 & _ & H4).
+  eexists _, _, _, _, _. split; [exact H1|]. split; [exact H2 | exact H4].
+Qed.
+
 (* ---- the decidable form evaluated on the implementation's observables ---------- *)
 Theorem spec_holds_on_model : forall i, spec_ok i (model i) = true.
 Proof. exact model_meets_spec. Qed.
